@@ -7,7 +7,9 @@ simulated scheduler for dispatch="ui" (from a simulated worker thread) and
 dispatch="new".  Environment: handler exceptions at the n-th invocation,
 thread switches, delivery order and delay of deferred calls, gc.
 """
+import asyncio
 import gc
+import inspect
 
 from ..core import Violation, HarnessError, stream, sut, exc_name, InjectedFault
 from ..sched import Sched
@@ -85,7 +87,7 @@ class Prop:
             "default reads, register/unregister, simulated thread switches, deliveries of "
             "deferred calls) on a generated class with 2-5 traits over {Any,Int,Str,List,Instance,"
             "Event,Button} x {none,identity,equality} and static, decorator and dynamic handlers "
-            "of all three mechanisms (arity 0-4, priority, dispatch same/ui/new), with handler "
+            "of all three mechanisms (arity 0-4, priority, dispatch same/ui/new, async observe handlers run as asyncio tasks), with handler "
             "exceptions injected at the n-th invocation; non-trivial = at least one assignment "
             "that counted as a change was checked against >= 2 handlers; distinct = distinct "
             "abstract traces (op kind, trait kind/mode, value-pair class, outcome, handlers "
@@ -94,7 +96,9 @@ class Prop:
                    "for values whose comparison raises only agreement of the mechanisms is required",
                    "del obj.x, veto notify and nested assignment to the trait being dispatched are "
                    "not generated"]
-    COMPONENTS = {"real": ["traits (Python + ctraits from the working tree)", "CPython gc"],
+    COMPONENTS = {"real": ["traits (Python + ctraits from the working tree)", "CPython gc",
+                           "stock asyncio event loop (stepped only by the simulator; no I/O, no "
+                           "timers) for async observe handlers"],
                   "stub": ["OS thread identity (traits.trait_notifiers.threading shim)",
                            "threading.Thread for dispatch='new' (SimThread -> simulator queue)",
                            "UI toolkit event queue (set_ui_handler -> simulator queue)",
@@ -140,6 +144,8 @@ class Prop:
                 d["dispatch"] = c.choice(["same", "same", "ui", "new"]) if deferred_ok else "same"
             else:
                 d["dispatch"] = c.choice(["same", "same", "ui"]) if deferred_ok else "same"
+                if deferred_ok and d["dispatch"] == "same" and c.random() < 0.35:
+                    d["async"] = True
             dyn.append(d)
         ctor = []
         for _ in range(c.choice([0, 0, 1, 2])):
@@ -237,6 +243,24 @@ class Prop:
 
     # ------------------------------------------------------------------ execution
     def execute(self, trace, env):
+        """The history runs inside a coroutine on a stock asyncio loop that only
+        the simulator steps: async observe handlers become tasks that run at
+        'deliver' ops and at the final drain, never on their own."""
+        loop = asyncio.new_event_loop()
+        self._loop_errors = []
+        loop.set_exception_handler(lambda l, ctx: self._loop_errors.append(ctx))
+        try:
+            loop.run_until_complete(self._run(trace, env))
+        finally:
+            try:
+                for t in asyncio.all_tasks(loop):
+                    t.cancel()
+                loop.run_until_complete(asyncio.sleep(0))
+            except Exception:      # noqa: BLE001
+                pass
+            loop.close()
+
+    async def _run(self, trace, env):
         from traits.api import push_exception_handler, pop_exception_handler, Undefined
         from traits.trait_errors import TraitError
         from traits.observation import api as oapi
@@ -248,16 +272,20 @@ class Prop:
         legacy_exc = []
         obs_exc = []
 
-        def H(hid, name, old, new, obj=MISSING):
-            rec = {"h": hid, "origin": sched.cur_origin(), "name": name, "old": old,
-                   "new": new, "obj": obj, "deferred": sched.origin is not None}
+        def H(hid, name, old, new, obj=MISSING, origin=None):
+            rec = {"h": hid, "origin": sched.cur_origin() if origin is None else origin,
+                   "name": name, "old": old, "new": new, "obj": obj,
+                   "deferred": sched.origin is not None, "async": origin is not None}
             records.append(rec)
+            if origin is not None:
+                env.probe("async-handler-task-ran")
             try:
                 env.point("h:" + hid, (name if name is not MISSING else None))
             except BaseException:
                 rec["raised"] = True
                 raise
 
+        H.origin = sched.cur_origin
         self._sched = sched
         self._pushed = 0
         sched.install()
@@ -373,6 +401,13 @@ class Prop:
                     idx = -1 if cfg["policy"] == "lifo" else op.get("i", 0)
                     if not sched.deliver(idx):
                         break
+                # let the asyncio loop run the handler tasks created so far
+                sched.origin = -2           # (bodies carry their own origin)
+                try:
+                    for _ in range(min(op["n"], 3)):
+                        await asyncio.sleep(0)
+                finally:
+                    sched.origin = None
             elif k == "gc":
                 gc.collect()
             else:
@@ -380,7 +415,8 @@ class Prop:
             env.end_op()
             # ---- containment: every exception raised by a synchronously dispatched handler
             # during this op was routed exactly once to the pushed exception handlers
-            sync_raised = sum(1 for rec in records[rec0:] if rec.get("raised") and not rec["deferred"])
+            sync_raised = sum(1 for rec in records[rec0:]
+                              if rec.get("raised") and not rec["deferred"] and not rec.get("async"))
             routed = (len(legacy_exc) - n_leg0) + (len(obs_exc) - n_obs0)
             if routed != sync_raised:
                 raise Violation("C02.exception-routing",
@@ -391,13 +427,25 @@ class Prop:
         env.begin_op(len(trace["ops"]), {"k": "drain"})
         pending = len(sched.queue)
         ok = sched.drain(cfg["policy"])
+        me = asyncio.current_task()
+        sched.origin = -2
+        try:
+            for _ in range(10000):
+                if not [t for t in asyncio.all_tasks() if t is not me and not t.done()]:
+                    break
+                await asyncio.sleep(0)
+            else:
+                ok = False
+        finally:
+            sched.origin = None
         env.end_op()
         if not ok or sched.queue:
             raise Violation("C02.drain", "deferred queue did not empty within its bound", None)
         if sched.delivered != sched.enqueued:
             raise Violation("C02.drain", "%d deferred calls enqueued, %d delivered"
                             % (sched.enqueued, sched.delivered), None)
-        deferred_raised = sum(1 for rec in records if rec.get("raised") and rec["deferred"])
+        deferred_raised = sum(1 for rec in records
+                              if rec.get("raised") and rec["deferred"] and not rec.get("async"))
         if len(sched.escaped) != deferred_raised:
             raise Violation("C02.exception-routing",
                             "%d exceptions raised by deferred handlers, %d reached the event loop"
@@ -552,6 +600,8 @@ class Prop:
     @staticmethod
     def make_dyn(d, H, listeners):
         if d["mech"] == "obs":
+            if d.get("async"):
+                return mk_async_obs(d["id"], H)
             return mk_obs(d["id"], H)
         if d.get("method"):
             listeners.append(Listener(H, d["id"]))
@@ -627,6 +677,20 @@ def mk_dec_obs(hid, H, attr):
         H(hid, event.name, event.old, event.new, event.object)
     m.__name__ = m.__qualname__ = attr
     return m
+
+
+def mk_async_obs(hid, H):
+    """An async observe handler.  The function runs at dispatch time (it only
+    notes which op dispatched it) and returns the coroutine whose body is the
+    handler proper, run later by the event loop."""
+    def h(event):
+        origin = H.origin()
+
+        async def body():
+            H(hid, event.name, event.old, event.new, event.object, origin=origin)
+        return body()
+    inspect.markcoroutinefunction(h)
+    return h
 
 
 def mk_obs(hid, H):
